@@ -119,3 +119,9 @@ PLANS['C04'] = {
     'run': api_runner({'quick': [('basis', 12, 30, 12), ('cert', 20, 2, 4)],
                        'thorough': [('basis', 120, 30, 16), ('cert', 200, 3, 16)]}),
 }
+
+PLANS['C07'] = {
+    'level': 'model_checking', 'tv_spec': 'TV_API',
+    'run': api_runner({'quick': [('sync', 25, 40, 16)],
+                       'thorough': [('sync', 300, 40, 16)]}),
+}
